@@ -51,7 +51,9 @@ def session_check(pid, what, with_timing=False):
 
 
 check_C06 = session_check("C06", "logged on only through an acceptable Logon in WaitingLogon (acceptor) / a Logon answer (initiator); "
-                                 "one echoing Logon answer; every other Logon -> one Reject by sequence number naming the offending tag; state kept")
+                                 "one echoing Logon answer; every other Logon -> one Reject by sequence number naming the offending tag; state kept; "
+                                 "real-time scenario: own Logout, 2.7 s of silence (heartbeat interval 1 s), a Heartbeat from the peer: not logged on",
+                          with_timing=True)
 check_C07 = session_check("C07", "message types on the wire before the first logged-on state are within {A,5,3}")
 check_C16 = session_check("C16", "each invalid/not-permitted admin message -> exactly one Reject with RefSeqNum (or RefTagID=34), state/context unchanged")
 check_C14 = session_check("C14", "each TestRequest while logged on -> exactly one Heartbeat with identical TestReqID; real-time scenario: a "
@@ -60,6 +62,7 @@ check_C10 = session_check("C10", "resend answers = recorded first transmissions 
                                  "first missing number; real-time scenario: a ResendRequest for the first of several timer heartbeats returns those very messages",
                           with_timing=True)
 check_C15 = session_check("C15", "peer Logout -> one Logout, not logged; own Logout -> none on the answer, logout event, context cancelled after Stop; "
-                                 "real-time scenario: Stop with close timeouts 0 / 50 ms / 500 ms and a silent peer", with_timing=True)
+                                 "real-time scenarios: Stop with close timeouts 0 / 50 ms / 500 ms and a silent peer; Logout / Stop answered 2.7 s late "
+                                 "(heartbeat interval 1 s, close timeout 8 s): no second Logout, logout event, context cancelled on the answer", with_timing=True)
 check_C19 = session_check("C19", "every transmitted message was saved under its number earlier in the same step; failed save / refusal -> not transmitted")
 check_C05 = session_check("C05", "new sequence numbers consecutive from the stored counter, comp ids, SendingTime format")
